@@ -499,7 +499,7 @@ def case_script(cid, case, top):
     root = snap_root(top)
     cfg = config_lines(env, filters)
     src = src_lines(snap, root, comps)
-    ls = ["echo CASE %d" % cid, "echo RESET", "root " + root, "stash " + os.path.join(top, "stash")]
+    ls = ["echo CASE %d" % cid, "echo RESET", "root " + root, "stash " + os.path.join(top, "stash"), "trace 1"]
     ls += [mutation_line(p, root) for p in removals]
     after = ["kinds"] if env.get("_kinds") else []
     if env.get("_srcequiv"):
@@ -878,6 +878,10 @@ def verdicts(r):
         if l.startswith("wf VIOLATION"):
             clauses = sorted(set(re.findall(r"([a-z-]+)@", l)))
             out.append(("wf:" + ",".join(clauses), "loaded topology violates WF clause(s): " + l[:300]))
+        elif l.startswith("lnode DIFF"):
+            out.append(("correspondence:linuxnode", "model of look_sysfsnode (Text/LinuxNode.v) disagrees with the memory objects the backend requested: " + l[:600]))
+        elif l == "mreqs chain BAD":
+            out.append(("memory-requests:chain", "a memory request of the Linux backend breaks the request invariants (NUMA nodeset = {os_index}; MemCache followed by the NUMA node sharing its sets)"))
         elif l.startswith("levels DIFF"):
             out.append(("correspondence:levels", "model of hwloc_connect_levels disagrees with the implementation: " + l[:300]))
         elif l.startswith("check abort"):
@@ -1045,6 +1049,13 @@ class SnapSearch:
                            kind="%s:%s:%s" % (snap.kind, label, "loaded" if r.get("loaded") else "rejected"))
             if r.get("loaded") and not vs:
                 self.run.cov["traces_validated_against_impl"] += 1
+            ln = self.run.cov.setdefault("linuxnode", {"loads_agreeing": 0, "requests_agreeing": 0, "escapes": {}})
+            for l in r["lines"]:
+                if l.startswith("lnode ok n="):
+                    ln["loads_agreeing"] += 1
+                    ln["requests_agreeing"] += int(l[11:])
+                elif l.startswith("lnode ESCAPE "):
+                    ln["escapes"][l[13:]] = ln["escapes"].get(l[13:], 0) + 1
             for key, what in vs:
                 found.setdefault(key, []).append((case, what, r))
         for key, items in sorted(found.items()):
